@@ -467,6 +467,10 @@ def main(prop, tier, seed):
                                   "[cli-vs-api] model %d for %s in one process: %s differ(s) from the fresh-process reference" % (mid, target, ", ".join(which)), dict(model=mid, target=target))
         finally:
             shutil.rmtree(d, ignore_errors=True)
+        # twin definitions (spec/CacheKeys.tla): a site's function is the one ITS definition denotes, whatever similar site was
+        # built or evaluated before, in the same file or in another file of the process
+        from engines import cachekeys
+        cachekeys.check(run, tier, seed)
         # sessions of the command line in one directory (spec/PotableFS.tla): the file written is a function of the options alone
         from engines import potfs
         potfs.check(run, tier, seed + 1, clause_engine="session")
